@@ -234,6 +234,53 @@ def _declarator_siblings(prog, chk):
     chk.count('additional declarator nodes', n_, 1)
 
 
+def _runtime_field_builders(prog, chk, R):
+    """The evaluator builds its per-class field descriptions in more than one place (ordinary classes in the class-table pass,
+    specialisations of generic classes on demand).  Every builder must copy the same attributes from the field declaration —
+    the tracked flag in particular: a builder that leaves it out makes `@tracked` fields of (say) generic classes vanish from the
+    outcome tables.  A builder = a default-constructed local of the record type whose members are assigned and which is then
+    appended to a container."""
+    n_ = 0
+    evfile = R.ev['file']
+    for rname, rec in prog.facts.records.items():
+        if not rname.split('::')[-1].startswith('Runtime') or len(rec.get('fields', [])) < 3 or not any(x['name'] == 'isTracked' for x in rec['fields']):
+            continue
+        fnames = {x['name'] for x in rec['fields']}
+        sites = []
+        for f in prog.functions:
+            if not f.body or f.kind == 'lambda' or not f.file.endswith('runtime_evaluator.cpp'):
+                continue
+            for v in SX.walk(f.body, into_lambdas=True):
+                if v['k'] != 'var' or (v.get('type') or '').replace('const ', '') not in (rname, rname.split('::')[-1]):
+                    continue
+                i0 = SX.strip(v.get('init')) if SX.is_node(v.get('init')) else None
+                if SX.is_node(i0) and not (i0.get('k') in ('construct', 'initlist') and not (SX.real_args(i0) if i0['k'] == 'construct' else i0.get('items'))):
+                    continue
+                filled = set()
+                appended = False
+                for n in SX.walk(f.body, into_lambdas=True):
+                    w = SX.write_target(n)
+                    tgt = SX.strip(w[0]) if w else (SX.strip(n.get('obj')) if n.get('k') == 'mcall' and not n.get('constm', True) else None)
+                    while SX.is_node(tgt) and tgt.get('k') == 'member' and not (SX.is_node(SX.strip(tgt.get('base'))) and SX.strip(tgt['base']).get('id') == v['id']):
+                        tgt = SX.strip(tgt.get('base'))
+                    if SX.is_node(tgt) and tgt.get('k') == 'member' and SX.strip(tgt['base']).get('id') == v['id'] and tgt['name'] in fnames:
+                        filled.add(tgt['name'])
+                    if SX.append_target(n) is not None and any(SX.is_node(SX.strip(a)) and SX.strip(a).get('id') == v['id'] for a in n.get('args', [])):
+                        appended = True
+                if appended and filled:
+                    sites.append((f, v, filled))
+        if len(sites) < 2:
+            continue
+        union = set().union(*[fl for _, _, fl in sites])
+        for f, v, filled in sites:
+            n_ += 1
+            missing = sorted(union - filled)
+            chk.ob('R17.7', f, v.get('ln', f.ln), not missing,
+                   '%s builds a %s from a field declaration; every builder copies the same attributes — missing here: %s (a field of a class built by this path then loses '
+                   'them, e.g. `@tracked` fields of generic classes are no longer reported)' % (f.short, rname.split('::')[-1], missing), key='field-builder:%s:%s' % (f.short, v.get('ln')))
+    chk.count('runtime field builders', n_, 2)
+
+
 def _shots_pair(prog, chk):
     """the (annotated?, N) pair the CLI reads is written by the loader: `annotated` is true exactly when main carries @shots —
     it does not depend on N (with @shots(1) the run is still an annotated run: header, table, precedence over --shots)"""
@@ -270,6 +317,7 @@ def _shots_pair(prog, chk):
 def _cli(prog, chk, R):
     _shots_pair(prog, chk)
     _declarator_siblings(prog, chk)
+    _runtime_field_builders(prog, chk, R)
     f = cli_run_function(prog, 'trackedCounts')
     from ..kernels import enclosing_stmts
     # aggregate accumulation inside the shot loop
